@@ -16,7 +16,7 @@ B1  TLC generates the cases: Gen_Framing enumerates every message sequence x eve
 B2  every recorded call (outcome, bytes consumed, decoded message == encoded message) is validated by
     TLC against Trace_Framing.tla: P decides (violation), M only notes drift.
 """
-import collections, concurrent.futures, json, os, random, re, subprocess, time
+import collections, concurrent.futures, itertools, json, os, random, re, subprocess, time
 from vlib import core
 
 LEVEL = "model_checking"
@@ -439,10 +439,10 @@ HARNESS = ("h_core", "framing")
 
 BUDGET = {
     # reps: representatives per codec used in sequences; b3_reps: ... in the model checked sequences
-    "quick": dict(small=True, reps=4, max_frames=2, cuts_single=2, cuts_seq=1, double_budget=9000, sim=400,
-                  sim_depth=400, b3_reps=2, b3_frames=2, chunk=120000, par=3, bad_frag=("whole", "bytes", "field")),
+    "quick": dict(small=True, reps=4, max_frames=2, cuts_single=2, cuts_seq=1, double_budget=6000, sim=250,
+                  sim_depth=400, b3_reps=1, b3_frames=2, live_seqs=40, chunk=120000, par=3, bad_frag=("whole", "bytes", "field")),
     "thorough": dict(small=False, reps=6, max_frames=3, cuts_single=2, cuts_seq=2, double_budget=600000, sim=6000,
-                     sim_depth=800, b3_reps=4, b3_frames=3, chunk=400000, par=4, bad_frag=("whole", "bytes", "field")),
+                     sim_depth=800, b3_reps=3, b3_frames=3, live_seqs=400, chunk=400000, par=4, bad_frag=("whole", "bytes", "field")),
 }
 
 
@@ -550,13 +550,13 @@ def tla_atoms(atoms):
                              for n, s, need in atoms) + " >>"
 
 
-def write_data(path, layouts, gen_frames):
+def write_data(path, layouts, gen_frames, seqs=()):
     with open(path, "w") as fh:
         fh.write("---------------------------- MODULE FramingData ----------------------------\n"
                  "\\* generated by checks/c10.py from its layout table\nEXTENDS Naturals, Sequences\n\nDataLayouts == <<\n")
         fh.write(",\n".join('  [id |-> "%s", codec |-> "%s", rep |-> %s, bad |-> "%s", at |-> %d,\n   atoms |-> %s]' % (
             l["id"], l["codec"], "TRUE" if l["rep"] else "FALSE", l["bad"], l["at"], tla_atoms(l["atoms"])) for l in layouts))
-        fh.write("\n>>\n\nGenFrames == <<\n")
+        fh.write("\n>>\n\nDataSeqs == {%s}\n\nGenFrames == <<\n" % ", ".join("<<%s>>" % ", ".join(str(i) for i in q) for q in seqs))
         fh.write(",\n".join('  [codec |-> "%s", len |-> %d, rep |-> %s, fields |-> << %s >>]' % (
             f.codec, f.len, "TRUE" if f.rep else "FALSE",
             ", ".join('[role |-> "%s", vals |-> %d]' % (fl[0], len(v)) for fl, v in zip(f.layout.fields, f.values or [])))
@@ -564,33 +564,53 @@ def write_data(path, layouts, gen_frames):
         fh.write("\n>>\n=============================================================================\n")
 
 
-def mc_layouts(frames, n_reps, with_bad=True):
-    """the layouts TLC model checks: one per distinct shape of every codec, the first n_reps of each
-    codec representative (used in sequences), plus one tag- and one length-corrupted variant"""
-    out = []
+def mc_layouts(frames, n_reps, max_frames):
+    """what TLC model checks: the distinct layouts (exact atoms) of all codec pairs - one message per
+    distinct atom shape of every codec - each alone, every sequence of 2..max_frames of the first
+    n_reps representatives of a codec (sequences that are layout-for-layout identical to one already
+    listed are skipped: M only depends on the atoms), and for every codec one tag- and one
+    length-corrupted frame, alone and behind a well formed one.  -> (layouts, sequences)"""
+    lays, index, seqs, seen_seq = [], {}, [], set()
+
+    def add(codec, f, bad, at, atoms, tag):
+        key = (bad, at, tuple(tuple(a) for a in atoms))
+        if key not in index:
+            lays.append(dict(id="%s/%d%s" % (codec, f.idx, tag), codec=codec, rep=True, bad=bad, at=at, atoms=atoms))
+            index[key] = len(lays)
+        return index[key]
+
+    def add_seq(q):
+        if tuple(q) not in seen_seq:
+            seen_seq.add(tuple(q))
+            seqs.append(list(q))
+
     by_codec = collections.OrderedDict()
     for f in frames:
         by_codec.setdefault(f.codec, []).append(f)
     for codec, fs in by_codec.items():
-        seen = {}
+        shapes = {}
         for f in sorted(fs, key=lambda f: (f.len, f.idx)):
-            seen.setdefault(shape_sig(f.layout), f)
-        chosen = sorted(seen.values(), key=lambda f: (0 if f.rep else 1, f.len))
-        nbad = {"tag": 0, "len": 0}
-        for k, f in enumerate(chosen):
-            out.append(dict(id="%s/%d" % (codec, f.idx), codec=codec, rep=k < n_reps, bad="ok", at=0,
-                            atoms=f.layout.atoms, frame=f))
-        if with_bad:
-            for f in chosen:
-                for (role, off, w, info) in f.layout.fields:
-                    kind = ROLE_BAD[role]
-                    if nbad[kind] >= 1:
-                        continue
-                    nbad[kind] += 1
-                    atoms, at = corrupt_atoms(codec, f.layout, role, off)
-                    out.append(dict(id="%s/%d#%s@%d" % (codec, f.idx, kind, off), codec=codec, rep=True, bad=kind,
-                                    at=at, atoms=atoms, frame=f))
-    return out
+            shapes.setdefault(shape_sig(f.layout), f)
+        chosen = sorted(shapes.values(), key=lambda f: (0 if f.rep else 1, f.len))
+        ids = [add(codec, f, "ok", 0, f.layout.atoms, "") for f in chosen]
+        for i in ids:
+            add_seq([i])
+        reps = ids[:n_reps]
+        for n in range(2, max_frames + 1):
+            for q in itertools.product(reps, repeat=n):
+                add_seq(q)
+        done = set()
+        for f in chosen:
+            for (role, off, w, info) in f.layout.fields:
+                kind = ROLE_BAD[role]
+                if kind in done:
+                    continue
+                done.add(kind)
+                atoms, at = corrupt_atoms(codec, f.layout, role, off)
+                i = add(codec, f, kind, at, atoms, "#%s@%d" % (kind, off))
+                add_seq([i])
+                add_seq([reps[0], i])
+    return lays, seqs
 
 
 # ---- harness --------------------------------------------------------------------------------
@@ -835,7 +855,7 @@ def run(tier, out):
     # behaviours of the specification itself: random fragmentations down to one byte per read
     cfg = core.cfg(constants={"MaxFrames": b["max_frames"], "PieceBounds": {1, 2, 3, 7, 1000}, "RecordHist": True},
                    invariants=["SimDump"])
-    cfg += "CONSTANT Layouts <- DataLayouts\n"
+    cfg += "CONSTANT Layouts <- DataLayouts\nCONSTANT GivenSeqs <- DataSeqs\n"
     s = core.run_tlc("MC_Framing", cfg, os.path.join(wd, "sim"), workers=1, coverage=False,
                      simulate="num=%d" % b["sim"], extra=["-depth", str(b["sim_depth"]), "-seed", str(core.seed())],
                      spec_dirs=(core.SPECS, gen_dir), timeout=1500)
@@ -934,36 +954,36 @@ def run(tier, out):
 
 
 def b3(out, wd, frames, b):
-    lays = mc_layouts(frames, b["b3_reps"])
+    lays, seqs = mc_layouts(frames, b["b3_reps"], b["b3_frames"])
     d = os.path.join(wd, "data_mc")
     os.makedirs(d, exist_ok=True)
-    write_data(os.path.join(d, "FramingData.tla"), lays, [])
+    write_data(os.path.join(d, "FramingData.tla"), lays, [], seqs)
     cfg = core.cfg(constants={"MaxFrames": b["b3_frames"], "PieceBounds": {1000}, "RecordHist": False},
                    invariants=INVS, properties=["StepOK"], view="View")
-    cfg += "CONSTANT Layouts <- DataLayouts\n"
+    cfg += "CONSTANT Layouts <- DataLayouts\nCONSTANT GivenSeqs <- DataSeqs\n"
     r = core.run_tlc("MC_Framing", cfg, os.path.join(wd, "mc"), workers=4, spec_dirs=(core.SPECS, d), timeout=2400)
     if not r.ok:
         raise core.ToolError("Framing.tla violates its own invariants (%s %s):\n%s" % (r.status, r.violated, r.counterexample[:3000]))
     cov = {a: {"distinct": x, "taken": y} for a, (x, y) in r.coverage.items()}
     never = [a for a, (x, y) in r.coverage.items() if y == 0]
-    core.log("[C10] MC_Framing: %d layouts, %d states (%d generated), depth %d, %.1fs; actions never taken: %s" % (
-        len(lays), r.distinct, r.generated, r.depth, r.wall, never or "none"))
+    core.log("[C10] MC_Framing: %d layouts, %d sequences, %d states (%d generated), depth %d, %.1fs; actions never taken: %s" % (
+        len(lays), len(seqs), r.distinct, r.generated, r.depth, r.wall, never or "none"))
     # liveness (every fragmentation is decoded to the end) without the VIEW on a reduced data set
-    small = [l for l in lays if l["codec"] in ("lane_req_value", "lane_resp_raw_map", "cmd_raw", "dl_not_map")]
+    live = [q for q in seqs if sum(sum(a[0] for a in lays[i - 1]["atoms"]) for i in q) <= 24][:b["live_seqs"]]
     d2 = os.path.join(wd, "data_live")
     os.makedirs(d2, exist_ok=True)
-    write_data(os.path.join(d2, "FramingData.tla"), small, [])
-    cfg = core.cfg(spec="LiveSpec", constants={"MaxFrames": 1, "PieceBounds": {1000}, "RecordHist": False},
+    write_data(os.path.join(d2, "FramingData.tla"), lays, [], live)
+    cfg = core.cfg(spec="LiveSpec", constants={"MaxFrames": 2, "PieceBounds": {1000}, "RecordHist": False},
                    properties=["Terminates"])
-    cfg += "CONSTANT Layouts <- DataLayouts\n"
+    cfg += "CONSTANT Layouts <- DataLayouts\nCONSTANT GivenSeqs <- DataSeqs\n"
     lv = core.run_tlc("MC_Framing", cfg, os.path.join(wd, "live"), workers=2, spec_dirs=(core.SPECS, d2), timeout=1200,
                       coverage=False)
     if not lv.ok:
         raise core.ToolError("Framing.tla: Terminates fails (%s):\n%s" % (lv.status, lv.counterexample[:3000]))
     core.log("[C10] MC_Framing liveness (Terminates): %d states, %.1fs" % (lv.distinct, lv.wall))
-    out.add(action_coverage=cov, actions_never_taken=never, model_checked_layouts=len(lays),
-            liveness_states=lv.distinct, tlc_depth=r.depth, states_generated=r.generated)
-    return {"states": r.distinct, "transitions": r.generated}
+    out.add(action_coverage=cov, actions_never_taken=never, model_checked_layouts=len(lays), model_checked_sequences=len(seqs),
+            liveness_states=lv.distinct, liveness_sequences=len(live), tlc_depth=r.depth, states_generated=r.generated)
+    return {"states": r.distinct, "transitions": r.generated - r.coverage.get("Init", (0, 0))[1]}
 
 
 FRAG_KF = ("KF1", "KF2", "KF3")
@@ -1010,6 +1030,21 @@ def judge(out, cases, results, rej, drift):
             if k:
                 trig.add(k)
         rows.append((ci, ri, why, trig & open_ids))
+    with open(os.path.join(core.WORK, "C10", "rejections.ndjson"), "w") as fh:
+        for (ci, ri, why, trig) in rows:
+            c = cases[ci]
+            fh.write(json.dumps({"codec": c.frames[0].codec, "msgs": [f.msg for f in c.frames], "pieces": c.runs[ri], "why": why,
+                                 "kf": sorted(trig), "bad": c.bad[4] if c.bad else None,
+                                 "obs": results[ci]["runs"][ri]["ev"] if "runs" in results[ci] else results[ci]}) + "\n")
+    with open(os.path.join(core.WORK, "C10", "drift.ndjson"), "w") as fh:
+        for rid in drift:
+            if rid in rej:
+                continue
+            ci, ri = (int(x) for x in rid.split("."))
+            c = cases[ci]
+            fh.write(json.dumps({"codec": c.frames[0].codec, "msgs": [f.msg for f in c.frames], "pieces": c.runs[ri],
+                                 "bad": c.bad[4] if c.bad else None, "atoms": [f.layout.atoms for f in c.frames],
+                                 "obs": results[ci]["runs"][ri]["ev"] if "runs" in results[ci] else results[ci]}) + "\n")
     # a listed finding counts as observed only through a run that nothing else can explain
     observed = {}
     for (ci, ri, why, trig) in rows:
@@ -1025,7 +1060,7 @@ def judge(out, cases, results, rej, drift):
             continue
         codec = case.frames[0].codec
         key = (codec, why, tuple(f.msg["t"] for f in case.frames), case.bad[4] if case.bad else None)
-        if key in reported and len(reported) > 40:
+        if key in reported or len(reported) >= 60:
             continue
         reported.add(key)
         what = "%s: %s | messages %s pieces %s%s" % (
